@@ -1,4 +1,5 @@
 import Csproto.Props.C04
+import Csproto.Proofs.GenRoundtrip
 /-
   C05 — Generated Marshal output is what the reference runtime would decode.
 
@@ -25,7 +26,7 @@ open Csproto Csproto.Gen
 /-- the output of `Marshal()` is exactly the fields' records followed by the unknown fields -/
 theorem marshal_is_concatenation (S : Schema) (md : MD) (fs : List F) (unk : Bytes) (bs : Bytes)
     (hok : OKFields S md fs) (h : marshal S md fs unk = .ok bs) (hm : opsFields S md fs ≠ .err) :
-    ∃ ops, opsFields S md fs = .ok ops ∧ bs = wiresOf ops ++ unk := by
+    ∃ ops, opsFields S md fs = .ok ops ∧ bs = Gen.wiresOf ops ++ unk := by
   rcases C04.marshal_total S md fs unk hok with ⟨_, he⟩ | ⟨bs', hb, _, hcase⟩
   · exact absurd he hm
   · rw [h] at hb; cases hb
@@ -86,5 +87,30 @@ theorem nested_record_shape (S : Schema) (num i : Nat) (c : Card) (v : V) (body 
   have hl := msgV_exact S (S.md i) v body hv hb
   refine ⟨.nested num (sizeMsgV S (S.md i) v) 0 (some body), by simp [opsField, hb], ?_⟩
   simp [EncOp.wire, hl]
+
+/-! ### Part 2: decoding the bytes back
+
+For message types of scalar fields the generated `Marshal` output *is* a sequence of well-formed
+records (`wiresW (msgRecs …)`), and decoding it with the reference rule (C06: last one wins, append,
+retain) — which the generated `Unmarshal` provably implements — gives the message back with identical
+presence, the unknown fields byte for byte. -/
+
+/-- what `Marshal` writes is exactly the records of the fields, in order -/
+theorem marshal_records (S : Schema) (md : MD) (fs : List F) (ops : List EncOp)
+    (hflat : ∀ fd ∈ md, ∃ k, fd.ty = .sc k) (ho : opsFields S md fs = .ok ops) :
+    Gen.wiresOf ops = wiresW (msgRecs 0 md fs) := by
+  rw [wiresW_eq_wiresOf, ← opsFields_recs S 0 md fs ops hflat ho]
+
+/-- the reference rule applied to those records gives the message back -/
+theorem records_decode_to_message (md : MD) (fs : List F) (hflat : FlatMD md) (hlen : fs.length = md.length)
+    (hsh : ∀ p ∈ md.zip fs, ShapeOK p.1 p.2) :
+    (msgRecs 0 md fs).foldl (WRec.apply md) (initFields md, []) = (canonFields md fs, []) := by
+  have := msg_fold md [] md fs [] (fun fd hfd => (hflat fd hfd).2.1) hlen hsh
+  simpa [initFields] using this
+
+/-- an unset optional field stays unset, a set one stays set (presence is preserved by the round trip) -/
+theorem presence_preserved (fd : FD) (v : V) (hc : fd.card = .explicit) :
+    canonField fd .unset = .unset ∧ ∃ w, canonField fd (.one v) = .one w := by
+  simp [canonField, initField, hc]
 
 end Csproto.C05
